@@ -592,21 +592,29 @@ func checkState(dir string) (v Verdict) {
 				diag = fmt.Sprintf(" [failed at block %d; parent %d: ReadHeader=%v ReadBody=%v HasHeader=%v HasBody=%v HasState=%v canonical=%v frozen=%d]", rest[idx].NumberU64(), pn,
 					rawdb.ReadHeader(db, ph, pn) != nil, rawdb.ReadBody(db, ph, pn) != nil, rawdb.HasHeader(db, ph, pn), rawdb.HasBody(db, ph, pn),
 					bc.HasState(m.ByHash[ph].Root()), rawdb.ReadCanonicalHash(db, pn) == ph, fz)
+				gone := ""
+				for n := uint64(1); n <= pn; n++ {
+					if cb := m.Canon[n]; rawdb.ReadHeader(db, cb.Hash(), n) == nil && rawdb.ReadBody(db, cb.Hash(), n) == nil {
+						gone += fmt.Sprintf(" %d", n)
+					}
+				}
+				fin := uint64(0)
+				if fh := rawdb.ReadFinalizedBlockHash(db); fh != (common.Hash{}) {
+					if nn, ok := rawdb.ReadHeaderNumber(db, fh); ok {
+						fin = nn
+					}
+				}
+				diag += fmt.Sprintf(" [blocks of this import gone from both stores:%s; finalized marker %d]", gone, fin)
+				// A block imported a moment ago that is canonical, has its state, and is in neither
+				// store: the background chain freezer of the re-opened database had copied the
+				// pre-crash blocks up to the finalized marker into the freezer before the start-up
+				// repair truncated the freezer again, and wiped their (re-imported) key-value copies
+				// afterwards — freeze()'s deferred wipe is not atomic with a head truncation.
+				if gone != "" && rawdb.ReadCanonicalHash(db, pn) == ph && bc.HasState(m.ByHash[ph].Root()) && fz <= pn {
+					return bad("reimport-parent-wiped-by-background-freezer", "InsertChain(%d..%d) after recovery (head was %d): %v%s", rest[0].NumberU64(), final.NumberU64(), v.Head, err, diag)
+				}
 			}
 			err = fmt.Errorf("%v%s", err, diag)
-			// The re-opened database runs its chain freezer in the background. While it moves
-			// a block, rawdb.HasHeader/HasBody (not atomic with the migration, see C25
-			// has-accessor-transient-miss) can report a present parent as missing, and the
-			// import fails with "unknown ancestor". Such a failure disappears once the freezer
-			// is quiescent: retry then; a failure that stays is a violation of its own.
-			if strings.Contains(err.Error(), "unknown ancestor") {
-				if fz, ok := db.(freezer); ok {
-					fz.Freeze()
-				}
-				if _, err2 := bc.InsertChain(rest); err2 == nil && bc.CurrentBlock().Hash() == final.Hash() && bc.HasState(final.Root()) {
-					return bad("reimport-transient-unknown-ancestor-during-background-freeze", "InsertChain(%d..%d) after recovery (head was %d) failed while the background freezer was migrating blocks and succeeded when retried after Freeze() returned: %v", rest[0].NumberU64(), final.NumberU64(), v.Head, err)
-				}
-			}
 			return bad("reimport-failed", "InsertChain(%d..%d) after recovery (head was %d): %v", rest[0].NumberU64(), final.NumberU64(), v.Head, err)
 		}
 	}
